@@ -2,7 +2,11 @@
 // with Rabin keys, masking chains and shuffles by any players, openings compared with a reference
 // model.  No transport is simulated here: each player's opening bits are computed with its own secret
 // key (TMCG_SelfCardSecret), i.e. the verified opening information of all k players.
+// Added later: the interactive proofs of this encoding run as two-task sessions over the simulated stream
+// pair with a relaying man-in-the-middle (C03 honest proofs are accepted, C04 a false statement is refused,
+// C05 an altered line is refused, C01 opening with the verified bits of the other players).
 #include "common.hh"
+#include "simstream.hh"
 #include <memory>
 
 using namespace sim;
@@ -28,21 +32,39 @@ static Plan qr_generate(uint64_t seed, const Tier &tier)
 {
 	Plan p; p.seed = seed; p.property = tier.property.empty() ? "C01" : tier.property;
 	Rng g(derive(seed, 1));
-	int k = (int)g.range(2, 5);
-	p.cfg["k"] = k; p.cfg["w"] = g.chance(1, 6) ? (int64_t)g.range(5, 8) : (int64_t)g.range(1, 4);
+	bool proofs = tier.opt.count("noproofs") == 0, faults = tier.opt.count("nofaults") == 0;
+	// plans with proof sessions stay small: a cut-and-choose round re-masks every value of every card
+	int k = proofs ? (int)g.range(2, 4) : (int)g.range(2, 5);
+	p.cfg["k"] = k; p.cfg["w"] = proofs ? (g.chance(1, 8) ? 4 : (int64_t)g.range(1, 3)) : (g.chance(1, 6) ? (int64_t)g.range(5, 8) : (int64_t)g.range(1, 4));
+	int64_t nmaxs = proofs ? 6 : 10;
 	p.cfg["tap"] = g.chance(1, 2); p.cfg["keys"] = (int64_t)g.below(720);
-	int nops = (int)g.range(3, tier.thorough ? 20 : 12);
+	int nops = (int)g.range(3, proofs ? 8 : (tier.thorough ? 20 : 12));
+	const std::string &prop = p.property;
+	p.cfg["kappa"] = (int64_t)g.range(1, 6); p.cfg["chunked"] = g.chance(1, 3);
 	p.ops.push_back(Op("card", (int64_t)g.below(256), g.chance(1, 3) ? (int64_t)g.below(k) : -1));
-	p.ops.push_back(Op("stack", (int64_t)g.range(1, 10), (int64_t)g.below(1 << 20)));
+	p.ops.push_back(Op("stack", (int64_t)g.range(1, nmaxs), (int64_t)g.below(1 << 20)));
 	for (int i = 0; i < nops; i++)
 	{
 		unsigned c = (unsigned)g.below(100);
 		if (c < 15) p.ops.push_back(Op("card", (int64_t)g.below(256), g.chance(1, 3) ? (int64_t)g.below(k) : -1));
 		else if (c < 45) p.ops.push_back(Op("mask", (int64_t)g.below(k), (int64_t)g.below(64)));
 		else if (c < 60) p.ops.push_back(Op("open", (int64_t)g.below(64)));
-		else if (c < 68) p.ops.push_back(Op("stack", (int64_t)g.range(1, 10), (int64_t)g.below(1 << 20)));
+		else if (c < 68) p.ops.push_back(Op("stack", (int64_t)g.range(1, nmaxs), (int64_t)g.below(1 << 20)));
 		else if (c < 88) p.ops.push_back(Op("mix", (int64_t)g.below(k), (int64_t)g.below(16), g.chance(2, 5) ? 1 : 0));
 		else p.ops.push_back(Op("openstack", (int64_t)g.below(16)));
+		if (proofs && g.chance(1, 2))
+		{
+			// fault: 0 none, 1 false statement (C04), 2 line altered in transit (C05)
+			int64_t ft = 0; unsigned q = (unsigned)g.below(100);
+			bool nofalse = tier.opt.count("nofalse") != 0; // sanitizer legs: the 32-round sessions of the false statements cost minutes there
+			if (faults) { if (prop == "C04") ft = (q < 70) ? 1 : 0; else if (prop == "C05") ft = (q < 80) ? 2 : 0; else if (prop == "C03") ft = 0; else ft = (q < 25) ? 1 : ((q < 50) ? 2 : 0); }
+			if (nofalse && ft == 1) ft = 2;
+			unsigned c2 = (unsigned)g.below(3);
+			Op op(c2 == 0 ? "vopen" : (c2 == 1 ? "pmask" : "pstack"));
+			op.a.push_back((int64_t)g.below(k)); op.a.push_back((int64_t)g.below(64)); op.a.push_back(g.chance(2, 5) ? 1 : 0);
+			op.a.push_back(ft); op.a.push_back((int64_t)g.below(1 << 16)); op.a.push_back((int64_t)g.below(1 << 16)); op.a.push_back((int64_t)g.below(1 << 16));
+			p.ops.push_back(op);
+		}
 	}
 	p.ops.push_back(Op("open", (int64_t)g.below(64)));
 	p.ops.push_back(Op("openstack", (int64_t)g.below(16)));
@@ -80,10 +102,159 @@ static RunResult qr_execute(const Plan &plan)
 		for (size_t p = 0; p < k; p++) { S.single_party = (int)p; tmcg.TMCG_SelfCardSecret(c, cs, *sk[p], p); }
 		return tmcg.TMCG_TypeOfCard(cs);
 	};
+	// ---- proof sessions: prover and verifier as two tasks over the simulated stream pair
+	size_t kappa = (size_t)std::max<int64_t>(1, std::min<int64_t>(8, plan.get("kappa", 4)));
+	SchindelhauerTMCG tmcgP(kappa, k, w);   // honest proofs and altered transcripts
+	SchindelhauerTMCG tmcgS(32, k, w);      // false statements: refused except with probability 2^-32
+	bool chunked = plan.get("chunked", 0) != 0;
+	typedef std::function<bool(std::istream &, std::ostream &)> RoleFn;
+	auto plus_one_token = [](const std::string &line, size_t tok, std::string &out) -> bool
+	{
+		// +1 on the tok-th long alphanumeric token of a line (plain value, card, stack or secret)
+		std::vector<std::pair<size_t, size_t> > toks; size_t i = 0;
+		while (i < line.size())
+		{
+			if (isalnum((unsigned char)line[i])) { size_t j = i; while (j < line.size() && isalnum((unsigned char)line[j])) j++; if (j - i >= 8) toks.push_back(std::make_pair(i, j - i)); i = j; }
+			else i++;
+		}
+		if (toks.empty()) return false;
+		std::pair<size_t, size_t> t = toks[tok % toks.size()];
+		Z v; if (mpz_set_str(v, line.substr(t.first, t.second).c_str(), TMCG_MPZ_IO_BASE) != 0) return false;
+		mpz_add_ui(v, v, 1);
+		out = line.substr(0, t.first) + v.io() + line.substr(t.first + t.second);
+		return out != line;
+	};
+	// runs one session; ft 0: honest, 2: one prover->verifier line altered.  Returns the verifier's verdict.
+	auto session = [&](const char *what, size_t pj, size_t vj, RoleFn pf, RoleFn vf, int ft, int64_t fa, int64_t fb, bool &fired) -> int
+	{
+		fired = false;
+		size_t nlines = 0;
+		if (ft == 2)
+		{
+			// a clean run from the same party streams counts the prover's lines
+			Rng sp = S.party[pj], sv = S.party[vj];
+			Session c0(S); c0.chunked = chunked; c0.run((int)pj, (int)vj, pf, vf);
+			for (size_t i = 0; i < c0.transcript.size(); i++) if (c0.transcript[i].dir == 0) nlines++;
+			if (c0.ret[1] != 1) { violate("C03", std::string("honest_proof_rejected_") + what, "verifier returned " + std::to_string(c0.ret[1]) + " on an honest proof"); return c0.ret[1]; }
+			S.party[pj] = sp; S.party[vj] = sv;
+			if (!nlines) return 1;
+		}
+		Session ses(S); ses.chunked = chunked;
+		size_t target = nlines ? (size_t)fa % nlines : 0;
+		if (ft == 2)
+			ses.relay = [&fired, target, fb, &plus_one_token](int dir, size_t idx, const std::string &line, std::vector<std::string> &out)
+			{
+				std::string m;
+				if (dir == 0 && idx == target && plus_one_token(line, (size_t)fb, m)) { out.push_back(m); fired = true; }
+				else out.push_back(line);
+			};
+		ses.run((int)pj, (int)vj, pf, vf);
+		res.cnt["probe.sessions"]++;
+		return ses.ret[1];
+	};
 	for (size_t oi = 0; oi < plan.ops.size() && res.ok(); oi++)
 	{
 		const Op &op = plan.ops[oi];
 		S.hist.add(H_OP, oi, op.arg(0), op.arg(1));
+		if (op.kind == "vopen" || op.kind == "pmask" || op.kind == "pstack")
+		{
+			int ft = (int)op.arg(3); int64_t fa = op.arg(4), fb = op.arg(5), fc = op.arg(6);
+			size_t pj = (size_t)op.arg(0) % k, vj = (pj + 1 + (size_t)fc % (k - 1)) % k;
+			SchindelhauerTMCG &T = (ft == 1) ? tmcgS : tmcgP;
+			bool fired = false;
+			if (op.kind == "vopen")
+			{
+				// the observer vj opens a card with the verified bits of every other player; fault: player pj's proof
+				if (cards.empty()) continue;
+				const CardRec &cr = cards[(size_t)op.arg(1) % cards.size()];
+				TMCG_CardSecret cs(k, w); bool all_ok = true, judged = true;
+				for (size_t q = 0; q < k && res.ok(); q++)
+				{
+					if (q == vj) { S.single_party = (int)vj; T.TMCG_SelfCardSecret(cr.c, cs, *sk[vj], vj); continue; }
+					const TMCG_Card *cp = &cr.c; TMCG_SecretKey *skq = sk[q]; TMCG_PublicKey *pkq = &ring.keys[q]; TMCG_CardSecret *csp = &cs; SchindelhauerTMCG *Tp = &T;
+					RoleFn pf = [Tp, cp, skq, q](std::istream &in, std::ostream &out) -> bool { Tp->TMCG_ProveCardSecret(*cp, *skq, q, in, out); return true; };
+					RoleFn vf = [Tp, cp, csp, pkq, q](std::istream &in, std::ostream &out) -> bool { return Tp->TMCG_VerifyCardSecret(*cp, *csp, *pkq, q, in, out); };
+					int f2 = (q == pj && ft == 2) ? 2 : 0;
+					int v = session("cardsecret", q, vj, pf, vf, f2, fa, fb, fired);
+					if (!res.ok()) break;
+					if (f2 == 2 && fired)
+					{
+						res.cnt["fault.mitm_mut"]++; judged = false;
+						if (v == 1) violate("C05", "mutated_transcript_accepted_cardsecret", "line " + std::to_string(fa) + " (mod the prover's lines) of player " + std::to_string(q) + "'s opening proof was altered and the verifier still accepted");
+					}
+					else if (v != 1) { all_ok = false; violate("C03", "honest_proof_rejected_cardsecret", "opening proof of player " + std::to_string(q) + " was rejected by player " + std::to_string(vj)); }
+				}
+				if (res.ok() && judged && all_ok)
+				{
+					size_t t = T.TMCG_TypeOfCard(cs); res.cnt["probe.cards_opened_verified"]++;
+					if (t != cr.type) violate("C01", "wrong_type_opened", "card created with type " + std::to_string(cr.type) + " and masked " + std::to_string(cr.masked) + " times opens to " + std::to_string(t) + " with the verified bits of all players");
+				}
+			}
+			else if (op.kind == "pmask")
+			{
+				if (cards.empty()) continue;
+				CardRec &cr = cards[(size_t)op.arg(1) % cards.size()];
+				S.single_party = (int)pj;
+				TMCG_CardSecret cs(k, w); TMCG_Card cc(k, w), shown(k, w);
+				T.TMCG_CreateCardSecret(cs, ring, pj); T.TMCG_MaskCard(cr.c, cc, cs, ring, tap);
+				shown = cc; std::string what = "none";
+				if (ft == 1)
+				{
+					// the verifier is shown another output card: the masking of the same card under another secret
+					TMCG_CardSecret cs2(k, w); T.TMCG_CreateCardSecret(cs2, ring, pj); T.TMCG_MaskCard(cr.c, shown, cs2, ring, tap);
+					if ((fa & 1) && k * w > 0) { shown = cc; size_t a = (size_t)fb % k, b = (size_t)fc % w; mpz_mul(&shown.z[a][b], &shown.z[a][b], ring.keys[a].y); mpz_mod(&shown.z[a][b], &shown.z[a][b], ring.keys[a].m); what = "one component multiplied by the non-residue y"; }
+					else what = "output card of another masking";
+					res.cnt["fault.false_statement"]++;
+				}
+				const TMCG_Card *cin = &cr.c, *cout = &cc, *cshown = &shown; const TMCG_CardSecret *csp = &cs; const TMCG_PublicKeyRing *rp = &ring; SchindelhauerTMCG *Tp = &T;
+				RoleFn pf = [Tp, cin, cout, csp, rp](std::istream &in, std::ostream &out) -> bool { Tp->TMCG_ProveMaskCard(*cin, *cout, *csp, *rp, in, out); return true; };
+				RoleFn vf = [Tp, cin, cshown, rp](std::istream &in, std::ostream &out) -> bool { return Tp->TMCG_VerifyMaskCard(*cin, *cshown, *rp, in, out); };
+				int v = session("maskcard", pj, vj, pf, vf, ft == 2 ? 2 : 0, fa, fb, fired);
+				if (!res.ok()) break;
+				if (ft == 1) { if (v == 1) violate("C04", "false_statement_accepted_maskcard", "masking proof accepted although the verifier was shown another card (" + what + "), kappa = 32"); }
+				else if (ft == 2 && fired) { res.cnt["fault.mitm_mut"]++; if (v == 1) violate("C05", "mutated_transcript_accepted_maskcard", "line " + std::to_string(fa) + " (mod the prover's lines) of a masking proof was altered and the verifier still accepted"); }
+				else if (v != 1) violate("C03", "honest_proof_rejected_maskcard", "honest masking proof rejected (verifier returned " + std::to_string(v) + ")");
+				if (res.ok()) { cr.c = cc; cr.masked++; res.cnt["probe.maskings_proved"]++; }
+			}
+			else
+			{
+				if (stacks.empty()) continue;
+				StackRec &sr = stacks[(size_t)op.arg(1) % stacks.size()];
+				size_t n = sr.s.size(); bool cyclic = op.arg(2) != 0 && n >= 2;
+				S.single_party = (int)pj;
+				TMCG_StackSecret<TMCG_CardSecret> ss; TMCG_Stack<TMCG_Card> out2, shown;
+				T.TMCG_CreateStackSecret(ss, cyclic, ring, pj, n);
+				T.TMCG_MixStack(sr.s, out2, ss, ring, tap);
+				shown = out2; std::string what = "none"; bool false_stmt = false;
+				if (ft == 1 && n >= 2)
+				{
+					// the verifier is shown a stack in which one card was replaced by a masking of another input card
+					size_t a = (size_t)fa % n, b = (a + 1 + (size_t)fb % (n - 1)) % n;
+					if (sr.types[ss[a].first] != sr.types[ss[b].first] || true)
+					{
+						TMCG_CardSecret cs2(k, w); TMCG_Card c2(k, w); T.TMCG_CreateCardSecret(cs2, ring, pj);
+						T.TMCG_MaskCard(sr.s[ss[b].first], c2, cs2, ring, tap);
+						TMCG_Stack<TMCG_Card> e; for (size_t i = 0; i < n; i++) e.push(i == a ? c2 : out2[i]);
+						shown = e; false_stmt = true; what = "position " + std::to_string(a) + " replaced by a fresh masking of the input card behind position " + std::to_string(b);
+						res.cnt["fault.false_statement"]++;
+					}
+				}
+				const TMCG_Stack<TMCG_Card> *sin = &sr.s, *sout = &out2, *sshown = &shown; const TMCG_StackSecret<TMCG_CardSecret> *ssp = &ss; const TMCG_PublicKeyRing *rp = &ring; SchindelhauerTMCG *Tp = &T;
+				RoleFn pf = [Tp, sin, sout, ssp, cyclic, rp, pj](std::istream &in, std::ostream &out) -> bool { Tp->TMCG_ProveStackEquality(*sin, *sout, *ssp, cyclic, *rp, pj, in, out); return true; };
+				RoleFn vf = [Tp, sin, sshown, cyclic, rp](std::istream &in, std::ostream &out) -> bool { return Tp->TMCG_VerifyStackEquality(*sin, *sshown, cyclic, *rp, in, out); };
+				int v = session("stackequality", pj, vj, pf, vf, ft == 2 ? 2 : 0, fa, fb, fired);
+				if (!res.ok()) break;
+				if (false_stmt) { if (v == 1) violate("C04", "false_statement_accepted_stackequality", "shuffle proof accepted although " + what + ", kappa = 32"); }
+				else if (ft == 2 && fired) { res.cnt["fault.mitm_mut"]++; if (v == 1) violate("C05", "mutated_transcript_accepted_stackequality", "line " + std::to_string(fa) + " (mod the prover's lines) of a shuffle proof was altered and the verifier still accepted"); }
+				else if (v != 1) violate("C03", "honest_proof_rejected_stackequality", "honest shuffle proof rejected (verifier returned " + std::to_string(v) + "), n=" + std::to_string(n) + (cyclic ? " cyclic" : ""));
+				if (res.ok())
+				{
+					std::vector<size_t> nt(n); for (size_t i = 0; i < n; i++) nt[i] = sr.types[ss[i].first];
+					sr.s = out2; sr.types = nt; res.cnt["probe.shuffles_proved"]++;
+				}
+			}
+			continue;
+		}
 		if (op.kind == "card")
 		{
 			CardRec r; r.c = TMCG_Card(k, w); r.type = (size_t)op.arg(0) % maxtype; r.masked = 0;
@@ -172,9 +343,9 @@ int main(int argc, char **argv)
 {
 	Scenario sc;
 	sc.name = "qrcards";
-	sc.real_components = "src/SchindelhauerTMCG.cc (quadratic-residuosity encoding: TMCG_CreateOpenCard/PrivateCard/CardSecret, TMCG_MaskCard, TMCG_SelfCardSecret, TMCG_TypeOfCard, TMCG_CreateStackSecret, TMCG_MixStack), TMCG_Card/CardSecret/Stack/StackSecret, TMCG_SecretKey/PublicKey (Rabin keys), mpz_sqrtm";
-	sc.stub_components = "entropy (seeded PRNG behind the libgcrypt random entry points); no transport: every player's opening bits are computed with that player's secret key (the interactive residuosity proofs are not run here)";
-	sc.rule = "one case = k=2..5 players with Rabin keys from a pool of six, w=1..8 type bits, timing protection on/off, a generated script of open and private cards, masking chains by any players, stacks with repeated types, shuffles and rotations by any players, openings of cards and of whole stacks compared with a reference model; distinct = fingerprint of the script";
+	sc.real_components = "src/SchindelhauerTMCG.cc (quadratic-residuosity encoding: TMCG_CreateOpenCard/PrivateCard/CardSecret, TMCG_MaskCard, TMCG_SelfCardSecret, TMCG_TypeOfCard, TMCG_CreateStackSecret, TMCG_MixStack), TMCG_Card/CardSecret/Stack/StackSecret, TMCG_SecretKey/PublicKey (Rabin keys), mpz_sqrtm; the interactive proofs of this encoding: TMCG_ProveCardSecret/VerifyCardSecret (quadratic residue / non-residue proofs), TMCG_ProveMaskCard/VerifyMaskCard (mask-value and mask-one proofs), TMCG_ProveStackEquality/VerifyStackEquality for TMCG_Card stacks (cut and choose)";
+	sc.stub_components = "entropy (seeded PRNG behind the libgcrypt random entry points); openings in the plain ops use each player's own secret key; the proof ops run prover and verifier as two tasks over the simulated stream pair (seeded fragmentation, relaying man-in-the-middle)";
+	sc.rule = "one case = k=2..5 players with Rabin keys from a pool of six, w=1..8 type bits, timing protection on/off, a generated script of open and private cards, masking chains by any players, stacks with repeated types, shuffles and rotations by any players, openings of cards and of whole stacks compared with a reference model; proof ops: verified opening of a card by an observer (one opening proof per other player), masking with proof, shuffle / rotation with cut-and-choose proof, each honest (must be accepted), with a false statement on the verifier's side (another output card, one component multiplied by the non-residue y, one stack position replaced by a masking of another input card; security parameter 32) or with one prover line altered in transit (+1 on a number of the line; a clean run from the same coins locates the line); distinct = fingerprint of the script";
 	sc.generate = qr_generate; sc.execute = qr_execute; sc.worker_init = qr_init;
 	return runner_main(argc, argv, sc);
 }
